@@ -2,7 +2,7 @@
 from . import rules_txn  # noqa: F401
 
 _OPTIONAL = ['rules_lock', 'rules_file', 'rules_codec', 'rules_expiry', 'rules_evict', 'rules_queue', 'rules_shard',
-             'rules_retry', 'rules_memo', 'rules_check', 'rules_persist', 'rules_django', 'rules_recipes']
+             'rules_retry', 'rules_api', 'rules_memo', 'rules_check', 'rules_persist', 'rules_django', 'rules_recipes']
 import importlib
 for _m in _OPTIONAL:
     try:
@@ -37,7 +37,7 @@ _ALL = {
              'rowid cursor (X3).',
              'SQLite comparison/affinity semantics for 1 vs 1.0 and pickle canonicity of equal composite keys are '
              'runtime-value questions and are not decided.'),
-    'C03': P(['E2', 'L5', 'L8', 'L9', 'X3', 'E4'],
+    'C03': P(['E2', 'L5', 'L8', 'L9', 'X3', 'E4', 'B1', 'B2', 'B3'],
              'who-may-delete classification with guard dominance over enumerated paths',
              'Decides the clause "nothing is ever removed except by an explicit removal call, by expiry, or by size '
              'eviction at the limit": every DELETE on Cache is classified and its guard verified (E2); statistics are '
@@ -93,7 +93,7 @@ _ALL = {
              'cull() and the bulk removals return everything they removed (E4); get/incr refresh recency in the same '
              'block (E5); Deque/Index use policy none (E6); the limit is divided among shards (S5).',
              'Which concrete items survive a given history needs execution and is not decided.'),
-    'C10': P(['Q1', 'Q2', ('L2', r'Cache\.(push|pull|peek)/'), ('F4', r'Cache\.(pull|peek)/'),
+    'C10': P(['Q1', 'Q2', ('B2', r'Cache\.(pull|peek)/'), ('L2', r'Cache\.(push|pull|peek)/'), ('F4', r'Cache\.(pull|peek)/'),
               ('X1', r'Cache\.(pull|peek)/'), ('S6', r'persistent\.(Deque|Index)\.')],
              'sibling agreement of push/pull/peek (constant-folded key ranges, order maps) + lock discipline',
              'Decides that push, pull and peek build the same open key range, pin raw, map sides to orders '
@@ -102,14 +102,14 @@ _ALL = {
              'insert/delete of the head share one transaction block (L2), the pulled file is released after commit '
              '(F4), expired heads use the common liveness predicate (X1); Deque/Index delegate positionally right (S6).',
              'Delivery order/exactly-once over interleavings follows from the block discipline only under A2.'),
-    'C11': P(['E6', ('L3', r'Deque\.'), ('R2', r'^Deque\.'), 'R3', ('P1', r'Deque'), ('S6', r'persistent\.Deque\.')],
+    'C11': P(['E6', ('I1', r'^Deque\.'), ('L3', r'Deque\.'), ('R2', r'^Deque\.'), 'R3', ('P1', r'Deque'), ('S6', r'persistent\.Deque\.')],
              'structural necessary conditions: policy none, append+trim in one retrying block, Timeout containment, state tuple',
              'Does NOT decide equivalence with collections.deque. Decides: a Deque never evicts or expires (E6); '
              'append/appendleft push, measure and trim the opposite side inside one retrying transaction, as does the '
              'maxlen setter (L3); no Deque method lets Timeout escape (R2, R3); the pickled state (directory, maxlen) '
              'matches the constructor (P1); delegation passes arguments in the right positions (S6).',
              'Equivalence with collections.deque over operation sequences needs execution and is not decided.'),
-    'C12': P(['E6', ('L3', r'Index\.'), ('R2', r'^Index\.'), 'R3', ('P1', r'Index'), 'V1b',
+    'C12': P(['E6', ('I1', r'^Index\.'), ('L3', r'Index\.'), ('R2', r'^Index\.'), 'R3', ('P1', r'Index'), 'V1b',
               ('S6', r'persistent\.Index\.')],
              'structural necessary conditions + call-path check of the lookup (vanished value file)',
              'Does NOT decide equivalence with OrderedDict. Decides: an Index never evicts or expires (E6); popitem '
@@ -157,7 +157,7 @@ _ALL = {
              'a fixpoint in one pass (H3 - violated, known finding); all comparisons run in one transaction (H4); '
              'FanoutCache.check covers every shard (S4, S6).',
              'Convergence for arbitrary damage combinations beyond these structural conditions is not decided.'),
-    'C18': P(['P1', 'P2', 'P3', 'P4', 'L6'],
+    'C18': P(['P1', 'P2', 'P3', 'P4', 'B5', 'L6'],
              'constant folding of the on-disk format against a pinned reference + state-tuple/constructor agreement',
              'Decides that pickled state matches the constructor for Cache/FanoutCache/Deque/Index (P1); settings are '
              'layered defaults < stored < arguments and counters inserted with OR IGNORE (P2); every on-disk format fact '
